@@ -23,6 +23,7 @@ func init() {
 			runC11Pool(c, "C11")
 			runPoolReleaseLast(c, "C11-POOL")
 			runLock(c, "C11-LRU")
+			base(c, "ALIAS")
 			importRules(c, "C08", runC08, "C11-CACHE", "entries of the shared type cache are complete when published and never written afterwards (rules C08-PUBLISH, C08-COPY): concurrent validations of one type read the same immutable entry", 2, ruleIn("C08-PUBLISH", "C08-COPY"))
 		},
 	})
@@ -40,6 +41,8 @@ func init() {
 			runC12Cache(c)
 			runC12Unsafe(c)
 			runC12Input(c)
+			runC12Memo(c)
+			runC12ParamWrite(c)
 		},
 	})
 }
@@ -1138,4 +1141,133 @@ func rmFromCaller(p *Prog, v ssa.Value, depth int) bool {
 		return false
 	}
 	return true
+}
+
+// runC12Memo: a concurrency-safe container kept in a package-level variable (sync.Map) and
+// written on a validation path is memory that outlives the call. That is compatible with "the
+// result depends only on this call's arguments" only if it is a sound memo: the value stored
+// under a key is computed from that key alone. Rule: at every Store/LoadOrStore/Swap on such a
+// global, the stored value is the result of one call all of whose arguments are the key value
+// itself or constants (regexp.Compile(pattern) stored under pattern is fine; stored under a
+// shorter text, every rule that shares that text is answered by the first pattern seen).
+func runC12Memo(c *Ctx) {
+	p := c.P
+	c.Rule("C12-MEMO", "every write into a package-level concurrent map on a validation path stores f(key) under key (a sound memo)", 0)
+	reach, _ := validationReach(p)
+	n := 0
+	for _, fn := range p.Funcs {
+		if !reach[fn] {
+			continue
+		}
+		for _, b := range fn.Blocks {
+			for _, ins := range b.Instrs {
+				call, ok := ins.(ssa.CallInstruction)
+				if !ok {
+					continue
+				}
+				cc := call.Common()
+				nm := calleeName(cc)
+				if nm != "(*sync.Map).Store" && nm != "(*sync.Map).LoadOrStore" && nm != "(*sync.Map).Swap" {
+					continue
+				}
+				g, ok := cc.Args[0].(*ssa.Global)
+				if !ok {
+					continue
+				}
+				n++
+				c.Sites++
+				key, val := stripIface(cc.Args[1]), stripIface(cc.Args[2])
+				var bad []string
+				src, isCall := val.(*ssa.Call)
+				if !isCall {
+					if ex, isEx := val.(*ssa.Extract); isEx {
+						src, isCall = ex.Tuple.(*ssa.Call)
+					}
+				}
+				if !isCall {
+					bad = append(bad, fmt.Sprintf("the value stored is a %T, not the result of a computation on the key", val))
+				} else {
+					for _, a := range src.Call.Args {
+						a = stripIface(a)
+						if _, isC := a.(*ssa.Const); isC || a == key {
+							continue
+						}
+						bad = append(bad, "the value stored under the key is computed by "+calleeName(&src.Call)+" from something other than the key: calls whose keys coincide but whose inputs differ are answered from the first one's entry")
+					}
+				}
+				c.Check(len(bad) == 0, "C12-MEMO", fnName(fn), "store:"+g.Name(), call.Pos(), "stores f(key) under key", uniqJoin(bad, 2))
+			}
+		}
+	}
+	if n == 0 {
+		c.OK("C12-MEMO", "valid", "none", token.NoPos, "no package-level concurrent map is written on a validation path")
+	}
+}
+
+// runC12ParamWrite: the library does not write into slices it is handed. A slice parameter of a
+// function of package valid (a spread variadic `rules...` included) shares its backing array
+// with the caller's slice: an element store, or an append onto a reslice of it, changes what
+// the caller passes to its next call.
+func runC12ParamWrite(c *Ctx) {
+	p := c.P
+	c.Rule("C12-PARAMWRITE", "no function of package valid stores into the backing array of a slice parameter", 1)
+	sp := p.Pkg("valid")
+	var bad []string
+	n := 0
+	for _, fn := range p.Funcs {
+		if fn.Pkg != sp {
+			continue
+		}
+		for _, prm := range fn.Params {
+			if _, ok := prm.Type().Underlying().(*types.Slice); !ok {
+				continue
+			}
+			n++
+			fam := map[ssa.Value]bool{prm: true}
+			for changed := true; changed; {
+				changed = false
+				for _, b := range fn.Blocks {
+					for _, ins := range b.Instrs {
+						switch x := ins.(type) {
+						case *ssa.Slice:
+							if fam[x.X] && !fam[x] {
+								fam[x], changed = true, true
+							}
+						case *ssa.Phi:
+							for _, e := range x.Edges {
+								if fam[e] && !fam[x] {
+									fam[x], changed = true, true
+								}
+							}
+						case *ssa.ChangeType:
+							if fam[x.X] && !fam[x] {
+								fam[x], changed = true, true
+							}
+						}
+					}
+				}
+			}
+			for _, b := range fn.Blocks {
+				for _, ins := range b.Instrs {
+					switch x := ins.(type) {
+					case *ssa.Store:
+						if ia, ok := x.Addr.(*ssa.IndexAddr); ok && fam[ia.X] {
+							bad = append(bad, fmt.Sprintf("%s stores into its slice parameter %s at %s: the caller's slice is modified", fnName(fn), prm.Name(), p.Pos(x.Pos())))
+						}
+					case *ssa.Call:
+						if calleeName(&x.Call) == "builtin.append" && fam[x.Call.Args[0]] {
+							if sl, ok := x.Call.Args[0].(*ssa.Slice); ok && sl.High != nil {
+								bad = append(bad, fmt.Sprintf("%s appends onto a reslice of its slice parameter %s at %s: the caller's elements are overwritten", fnName(fn), prm.Name(), p.Pos(x.Pos())))
+							}
+						}
+						if calleeName(&x.Call) == "builtin.copy" && fam[x.Call.Args[0]] {
+							bad = append(bad, fmt.Sprintf("%s copies into its slice parameter %s at %s", fnName(fn), prm.Name(), p.Pos(x.Pos())))
+						}
+					}
+				}
+			}
+		}
+	}
+	c.Sites += n
+	c.Check(len(bad) == 0, "C12-PARAMWRITE", "valid", "slice-params", token.NoPos, fmt.Sprintf("%d slice parameters, none written through", n), uniqJoin(bad, 3))
 }
